@@ -129,6 +129,10 @@ pub fn h_new_table_len(s: &mut Src) { let n = s.usize(); if !s.assume(1 <= n && 
 fn cap_ok(size: usize, r: usize) -> bool {
     is_pow2(r as u64) && r <= 0x4000_0000 && (size >= 0x3000_0000 || r - r / 4 > size) && (size < 0x2000_0000 || r == 0x4000_0000)
 }
+//# props=C05,C14
+pub fn h_presize_cap_pow2(s: &mut Src) { let size = s.usize(); let r = presize_cap(size); assert!(is_pow2(r as u64) && r <= 0x4000_0000); }
+//# props=C05,C14
+pub fn h_try_presize_cap_pow2(s: &mut Src) { let size = s.usize(); let r = try_presize_cap(size); assert!(r >= 0 && is_pow2(r as u64) && r <= 0x4000_0000); }
 //# props=C14
 pub fn h_presize_cap(s: &mut Src) { let size = s.usize(); assert!(cap_ok(size, presize_cap(size))); }
 //# props=C14
@@ -180,7 +184,7 @@ pub const HARNESSES: &[(&str, fn(&mut Src))] = &[
     ("std_leading_zeros", h_std_leading_zeros), ("std_next_power_of_two", h_std_next_power_of_two), ("std_abs", h_std_abs),
     ("std_cmp_min_max", h_std_cmp_min_max), ("resize_stamp", h_resize_stamp), ("generations_disjoint", h_generations_disjoint),
     ("load_factor", h_load_factor), ("threshold_after_resize", h_threshold_after_resize), ("new_table_len", h_new_table_len),
-    ("presize_cap", h_presize_cap), ("try_presize_cap", h_try_presize_cap), ("add_count_new", h_add_count_new),
+    ("presize_cap", h_presize_cap), ("presize_cap_pow2", h_presize_cap_pow2), ("try_presize_cap_pow2", h_try_presize_cap_pow2), ("try_presize_cap", h_try_presize_cap), ("add_count_new", h_add_count_new),
     ("removal_never_grows", h_removal_never_grows), ("claim", h_claim), ("stride", h_stride),
     ("not_last_resizer", h_not_last_resizer), ("bini_split", h_bini_split),
 ];
@@ -200,6 +204,8 @@ mod harness {
     #[kani::proof] fn new_table_len() { h_new_table_len(&mut src()) }
     #[kani::proof] fn presize_cap() { h_presize_cap(&mut src()) }
     #[kani::proof] fn try_presize_cap() { h_try_presize_cap(&mut src()) }
+    #[kani::proof] fn presize_cap_pow2() { h_presize_cap_pow2(&mut src()) }
+    #[kani::proof] fn try_presize_cap_pow2() { h_try_presize_cap_pow2(&mut src()) }
     #[kani::proof] fn add_count_new() { h_add_count_new(&mut src()) }
     #[kani::proof] fn removal_never_grows() { h_removal_never_grows(&mut src()) }
     #[kani::proof] fn claim() { h_claim(&mut src()) }
